@@ -242,6 +242,31 @@ def run(ctx, rep):
             return not bad, 'offset = bits 0..%d' % (min(x, 56) - 1) if not bad else 'offset bit(s) %s wrong (x = %d)' % (bad[:6], x)
         check('C15.2', 'compressed_range offset field, cluster_bits=%d' % cb, 'meta::l2::L2Entry::compressed_range',
               [ec, C(32, cb)], exp, 'C15.2:compressed_range:offset')
+    # the length field: every bit of the "additional sectors" field (bits x..61, cluster_bits - 8 of them) reaches the decoded
+    # length at its place: length = (sectors + 1) * 512 - (offset & 511).  One field bit symbolic at a time, the rest of the
+    # descriptor zero (so nothing is subtracted and no carry can hide the bit).
+    for cb in range(9, 22):
+        x = 62 - (cb - 8)
+        for j in range(cb - 8):
+            bits = ['0'] * 64
+            bits[62] = '1'
+            bits[x + j] = 'd'
+
+            def expl(r, j=j, cb=cb):
+                if not (isinstance(r, Adt) and r.vname == 'Some' and isinstance(r.xs[0], Tup)):
+                    return False, 'not Some((offset, length)): %r' % (r,)
+                try:
+                    got = to_bits(r.xs[0].xs[1], 64)
+                except Undecided:
+                    return False, 'length is not a bit vector'
+                if j == 0:
+                    ok = 'd' in got[9] and got[9] != 'd'        # (d + 1) * 512: bit 9 is the complement of d
+                else:
+                    ok = got[9] == '1' and got[9 + j] == 'd'
+                return ok, 'sector-count bit %d (descriptor bit %d) reaches the length at bit %d' % (j, 62 - (cb - 8) + j, 9 + j) if ok else \
+                    'sector-count bit %d (descriptor bit %d) does not reach the length: bits 9.. are %s' % (j, 62 - (cb - 8) + j, got[9:9 + j + 2])
+            check('C15.2', 'compressed_range length, cluster_bits=%d, sector bit %d' % (cb, j), 'meta::l2::L2Entry::compressed_range',
+                  [S(bits), C(32, cb)], expl, 'C15.2:compressed_range:length')
     # ---------------------------------------------------------------- C15.3
     rb_fields = [fl['n'] for fl in f.adts['meta::refcount::RefBlock']['variants'][0]['fields']]
     if rb_fields != ['offset', 'raw_data', 'refcount_order']:
@@ -602,6 +627,8 @@ def address_rule(f, ev, rep):
                     'meta::addr::SplitGuestOffset::l2_slice_key': shifted(hb, cb + l2ks, 64 - cb - l2ks),
                     'meta::addr::SplitGuestOffset::l2_slice_off_in_table': shifted(hb, cb + l2ks, l2k - l2ks, sb),
                     'meta::addr::SplitGuestOffset::in_cluster_offset': shifted(hb, 0, cb),
+                    # index composition reproduces the offset (rounded down to its cluster)
+                    'meta::addr::SplitGuestOffset::cluster_offset': shifted(hb, cb, 64 - cb, cb),
                 }
                 for fn, bits in want.items():
                     if f.body(fn) is None:
